@@ -126,4 +126,4 @@ def run(ck, tier, seed):
                 raise vlib.Broken("binding lost: a trace with two slots swapped in a recorded walk was accepted")
             ck.extra["binding_demo"] = "Justify event %d with two slots swapped in its forward walk is rejected" % i
     ck.assumptions += ["breaks only at interior slots (the property excludes the first slot); abstract break positions are mapped proportionally onto real segments",
-                       "a call that does not return within 10 s is reported as a fault (watchdog)"]
+                       "a call that does not return within 90 s is reported as a fault (watchdog)"]
